@@ -93,6 +93,7 @@ def body_text(body, attr):
         "fmt_variant": f'#[{a}("{{_variant}}")]', "fmt_variant_wrap": f'#[{a}("[{{_variant}}] {{_variant}}")]',
         "types_nocomma": f"#[{a}(i32 u8)]", "forms_nocomma": f"#[{a}(owned(i32) ref_mut u8)]",
         "path_global": f"#[{a}(::owned)]", "path_call": f"#[{a}(forward::all(x), ignore::y)]", "path_generic": f"#[{a}(ignore<T>, forward::<u8>)]",
+        "legacy_in_owned": f"#[{a}(owned(types(i64)))]", "legacy_in_ref": f"#[{a}(ref(types(i64)))]", "legacy_in_ref_mut": f"#[{a}(ref_mut(types(i64)))]",
         "word_repr": f"#[{a}(repr)]", "word_forward": f"#[{a}(forward)]", "word_skip": f"#[{a}(skip)]",
     }[body]
 
